@@ -267,6 +267,11 @@ pub fn run(rep: &mut Report) {
     rep.rule = "durations: every unit multiple k*U +- 0..3 ns for the seven units and ~100 values of k, both signs, the dense windows round 0 and +-1..3 centuries, all within 10 000 years; each is decomposed, subdivided, displayed, parsed back, serialized to JSON and back, and read through Epoch::hours()..nanoseconds(). Parser: 25 unit spellings x 30 values (incl. decimals whose nearest double is below them and whole counts needing more than 53 bits) x sign; all 127 component subsets x 3 value sets x sign; offsets [+-]HH:MM, [+-]HHMM, [+-]HH, [+-]HH:MM:SS, [+-]HHMMSS for all 24 x 60 (x {0, 59} s). Oracle: integer decomposition and a reference renderer. Non-trivial = within 3 ns of a whole number of a unit, or negative.".into();
     rep.assumptions = vec!["the sign of a positive decomposition may be 0 or +1 (the repository's suite pins 0)".into(), "forms without a space between value and unit are undocumented: not exercised".into()];
     sweep(rep, "c11.text", dl.len() as u64, |i, out| j_text(dl[i as usize], out));
+    // order independence: print / parse / serialize of twelve short durations and six spellings, in every order
+    {
+        let ov: [i128; 12] = [0, 1, -1, NS_S, -9 * NS_S, 86_400 * NS_S, 2 * 86_400 * NS_S, -5 * 3_600 * NS_S, 86_400 * NS_S + 99, 10 * NS_S + 100_000_000, 1_003, -7_200 * NS_S];
+        crate::engine::order_pairs(rep, "c11.order", 12 + 6, |i, out| if i < 12 { j_text(ov[i as usize], out) } else { j_spelling(((i - 12) * 4) as usize, (i % 5) as usize, i % 2 == 0, out) });
+    }
     let nv = VALUES.len() as u64;
     sweep(rep, "c11.spelling", 25 * nv * 2, |i, out| j_spelling((i / (2 * nv)) as usize, ((i / 2) % nv) as usize, i % 2 == 1, out));
     sweep(rep, "c11.combo", 127 * 3 * 2, |i, out| j_combo((i / 6) as u32 + 1, ((i / 2) % 3) as usize, i % 2 == 1, out));
